@@ -63,7 +63,7 @@ fn dump(mfs: &[MetricFamily], out: &mut String) {
     }
 }
 
-const KINDS: usize = 14;
+const KINDS: usize = 15;
 const SCRIPTS: usize = 5;
 
 /// Build collector `kind` and apply update script `s` (<=3 operations).
@@ -171,6 +171,7 @@ fn build(kind: usize, s: usize) -> Box<dyn Collector> {
             Box::new(v)
         }
         12 => Box::new(Custom { desc: Desc::new("cust".into(), "help cust".into(), vec![], HashMap::new()).unwrap(), variant: s }),
+        14 => Box::new(Defaults { desc: Desc::new("dflt".into(), "help dflt".into(), vec![], HashMap::new()).unwrap(), variant: s }),
         13 => {
             // histograms whose only bucket is the implicit +Inf one, observed or not (an all-default payload)
             match s {
@@ -285,6 +286,102 @@ impl Collector for Custom {
             }
         }
         mf.set_metric(vec![m2, m1]);
+        vec![mf]
+    }
+}
+
+/// A custom collector whose family holds several samples with *identical* label sets that differ only in whether an
+/// optional field (timestamp, value, count, sum) was never set or was set explicitly to its default: the protobuf
+/// model can tell the two apart (`has_*`), the plain model cannot, so nothing observable may depend on it.
+struct Defaults {
+    desc: Desc,
+    variant: usize,
+}
+
+impl Collector for Defaults {
+    fn desc(&self) -> Vec<&Desc> {
+        vec![&self.desc]
+    }
+    fn collect(&self) -> Vec<MetricFamily> {
+        use prometheus::proto;
+        let lp = |k: &str, v: &str| {
+            let mut l = proto::LabelPair::default();
+            l.set_name(k.to_string());
+            l.set_value(v.to_string());
+            l
+        };
+        let gauge = |v: Option<f64>| {
+            let mut g = proto::Gauge::default();
+            if let Some(v) = v {
+                g.set_value(v);
+            }
+            g
+        };
+        let counter = |v: Option<f64>| {
+            let mut c = proto::Counter::default();
+            if let Some(v) = v {
+                c.set_value(v);
+            }
+            c
+        };
+        let labels = || if self.variant % 2 == 1 { vec![lp("q", "a")] } else { vec![] };
+        let mut mf = MetricFamily::default();
+        mf.set_name("dflt".to_string());
+        mf.set_help("help dflt".to_string());
+        let mut ms: Vec<Metric> = vec![];
+        let mut push = |mut m: Metric, ts: Option<i64>| {
+            if let Some(t) = ts {
+                m.set_timestamp_ms(t);
+            }
+            ms.push(m);
+        };
+        match self.variant {
+            0 | 1 => {
+                mf.set_field_type(MetricType::GAUGE);
+                for (v, ts) in [(Some(3.0), Some(3)), (Some(1.0), None), (Some(2.0), Some(0)), (Some(4.0), Some(-1)), (None, None), (Some(0.0), Some(0))] {
+                    let mut m = Metric::from_label(labels());
+                    m.set_gauge(gauge(v));
+                    push(m, ts);
+                }
+            }
+            2 => {
+                mf.set_field_type(MetricType::COUNTER);
+                for (v, ts) in [(Some(0.0), Some(0)), (None, None), (Some(5.0), Some(0)), (Some(6.0), None), (Some(7.0), Some(i64::MIN))] {
+                    let mut m = Metric::from_label(labels());
+                    m.set_counter(counter(v));
+                    push(m, ts);
+                }
+            }
+            3 => {
+                mf.set_field_type(MetricType::HISTOGRAM);
+                for (explicit, ts) in [(true, Some(0)), (false, None), (true, None), (false, Some(0))] {
+                    let mut h = proto::Histogram::default();
+                    if explicit {
+                        h.set_sample_count(0);
+                        h.set_sample_sum(0.0);
+                        h.set_bucket(vec![]);
+                    }
+                    let mut m = Metric::from_label(labels());
+                    m.set_histogram(h);
+                    push(m, ts);
+                }
+            }
+            _ => {
+                mf.set_field_type(MetricType::SUMMARY);
+                for (explicit, ts) in [(false, Some(0)), (true, None), (false, None), (true, Some(0))] {
+                    let mut su = proto::Summary::default();
+                    if explicit {
+                        su.set_sample_count(0);
+                        su.set_sample_sum(0.0);
+                        su.set_quantile(vec![]);
+                    }
+                    let mut m = Metric::from_label(labels());
+                    m.set_summary(su);
+                    push(m, ts);
+                }
+            }
+        }
+        mf.set_metric(ms);
         vec![mf]
     }
 }
